@@ -17,6 +17,8 @@ Monitors
   absent-symbol-empty-sum         a diagram without the symbol has the empty sum as gradient
   jacobian-returns / jacobian-vs-sympy / jacobian-stacks-in-order
 """
+import random
+
 import numpy
 import sympy
 
@@ -52,8 +54,8 @@ COVER = {
     "discopy.quantum.zx:Spider.grad": 0.9,
 }
 MIN_EVALS = {
-    "quick": {"grad-vs-sympy": 220, "grad-vs-finite-difference": 200,
-              "absent-symbol-empty-sum": 200, "jacobian-vs-sympy": 25,
+    "quick": {"grad-vs-sympy": 150, "grad-vs-finite-difference": 150,
+              "absent-symbol-empty-sum": 170, "jacobian-vs-sympy": 25,
               "jacobian-stacks-in-order": 15},
     "thorough": {"grad-vs-sympy": 4000, "grad-vs-finite-difference": 3600}}
 ASSUMPTIONS = [
@@ -141,7 +143,20 @@ def p_bubble_composite_inside(monitor, w):
         and w.get("bubble_inside_composite") is True
 
 
+def p_tensor_box_grad_unguarded(monitor, w):
+    """
+    tensor.Box.grad and tensor.Bubble.grad have no 'variable absent -> empty
+    sum' guard (every other grad has): called on the box itself they return a
+    bubble that evaluates to zero instead of the empty sum.
+    """
+    return monitor == "absent-symbol-empty-sum"\
+        and w.get("failure") == "not-the-empty-sum"\
+        and w.get("top_level_class") in ("tensor.Box", "tensor.Bubble")\
+        and w.get("gradient_evaluates_to_zero") is True
+
+
 PREDICATES = {
+    "tensor_box_grad_unguarded": p_tensor_box_grad_unguarded,
     "bubble_grad_composite_inside": p_bubble_composite_inside,
     "scalar_grad_mixed": p_scalar_grad_mixed,
     "bubble_hides_symbols": p_bubble_hidden,
@@ -201,6 +216,11 @@ def const(rng):
 
 def phase_expr(rng, x, others, nonlinear=True):
     """ An expression that contains x. """
+    expr = _phase_expr(rng, x, others, nonlinear)
+    return expr if x in getattr(expr, "free_symbols", ()) else x
+
+
+def _phase_expr(rng, x, others, nonlinear=True):
     y = rng.choice(others) if others else x
     kind = rng.randrange(9 if nonlinear else 4)
     if kind == 0:
@@ -668,7 +688,7 @@ def is_empty_sum(G, d):
         and len(G.terms) == 0 and G.dom == d.dom and G.cod == d.cod
 
 
-def check_absent(ctx, d, params, base):
+def check_absent(ctx, d, params, base, circuit):
     w = _S["absent"]
     try:
         G = d.grad(w, **params)
@@ -676,9 +696,20 @@ def check_absent(ctx, d, params, base):
         report(ctx, "absent-symbol-empty-sum", failure="exception",
                exception=type(err).__name__, message=str(err)[:300], **base)
         return
-    expect(ctx, "absent-symbol-empty-sum", is_empty_sum(G, d),
-           failure="not-the-empty-sum", gradient=lambda: safe_repr(G, 300),
-           **base)
+    if is_empty_sum(G, d):
+        ctx.ok("absent-symbol-empty-sum")
+        return
+    zero = None
+    try:
+        flat, _ = evaluate(G, circuit, base["mode"] == "mixed")
+        zero = flat is None or bool(numpy.all(sym.numeric_many(
+            flat, sym.random_points(random.Random(0),
+                                    sym.diagram_symbols(d), n=1))[0] == 0))
+    except Exception:
+        pass
+    report(ctx, "absent-symbol-empty-sum", failure="not-the-empty-sum",
+           gradient=safe_repr(G, 300), top_level_class=clsname(d),
+           gradient_evaluates_to_zero=zero, **base)
 
 
 def take_gradient(ctx, d, x, mode, params, base):
@@ -766,7 +797,7 @@ def circuit_case(ctx, rng, arm, syms, x):
             continue
         base = dict(arm=arm, mode=mode, var=str(x), diagram=safe_repr(d, 700),
                     var_classes=var_classes(d, x))
-        check_absent(ctx, d, params, base)
+        check_absent(ctx, d, params, base, True)
         G = take_gradient(ctx, d, x, mode, params, base)
         if G is None:
             if mode == "mixed" and not d.is_mixed:
@@ -786,6 +817,13 @@ def tensor_case(ctx, rng, arm, syms, x):
     extra = {}
     if arm == "tensor":
         d = gen_tensor(rng, syms, x)
+        if rng.random() < 0.2:
+            from discopy import tensor
+            from discopy.tensor import Dim
+            a, b = rng.choice([1, 2, 3]), rng.choice([2, 3])
+            d = tensor.Box("f", Dim(a), Dim(b), [
+                poly_entry(rng, x if i % 2 == 0 else rng.choice(syms), syms)
+                for i in range(a * b)])
     elif arm == "tensor-bubble":
         for attempt in range(20):
             specs = chain_specs(rng, syms, x, rng.randint(1, 3),
@@ -818,7 +856,7 @@ def tensor_case(ctx, rng, arm, syms, x):
         return False
     base = dict(arm=arm, mode="tensor", var=str(x), diagram=safe_repr(d, 700),
                 var_classes=var_classes(d, x), **extra)
-    check_absent(ctx, d, {}, base)
+    check_absent(ctx, d, {}, base, False)
     G = take_gradient(ctx, d, x, "tensor", {}, base)
     if G is None:
         return False
